@@ -365,7 +365,16 @@ def main():
         log(f"INFRASTRUCTURE-ERROR {pid}: timeout {e}")
         return 2
     except Exception:  # noqa: BLE001
-        log(f"INFRASTRUCTURE-ERROR {pid}: harness crashed\n" + traceback.format_exc()[-3000:])
+        tb = traceback.format_exc()
+        frames = traceback.extract_tb(sys.exc_info()[2])
+        if frames and frames[-1].filename.startswith("/repo/"):
+            # the implementation itself raised where the harness did not expect it (e.g. while building
+            # objects through the public API): that is an observation about /repo, not an infrastructure failure
+            path = write_replay(pid, seed, 1, {"property": pid, "kind": "implementation-raised-in-harness",
+                                               "traceback": tb[-4000:], "seed": seed, "tier": tier})
+            log(f"VIOLATION property={pid} replay={path} no-failing-input-found")
+            return 1
+        log(f"INFRASTRUCTURE-ERROR {pid}: harness crashed\n" + tb[-3000:])
         return 2
 
 
